@@ -55,14 +55,12 @@ fn byte_variants(b: &[u8], tier: Tier) -> Vec<(String, Vec<u8>)> {
         if tier == Tier::Thorough {
             subs.extend([b[i].wrapping_add(1), b[i].wrapping_sub(1), b[i] ^ 0x02, b[i] ^ 0x04, b[i] ^ 0x08, b[i] ^ 0x10, b[i] ^ 0x20, b[i] ^ 0x40]);
         }
-        subs.sort();
-        subs.dedup();
+        // no de-duplication by value: the number of variants must not depend on the byte values, which depend
+        // on the (process-random) order in which hash maps were serialized
         for s in subs {
-            if s != b[i] {
-                let mut c = b.to_vec();
-                c[i] = s;
-                out.push((format!("byte {i} := {s:#04x}"), c));
-            }
+            let mut c = b.to_vec();
+            c[i] = s;
+            out.push((format!("byte {i} := {s:#04x}"), c));
         }
     }
     out
@@ -307,11 +305,11 @@ pub fn check_c01(tier: Tier) -> Report {
 
     rep.violations = adv::uniq(viols);
     rep.cov("evaluations", json!(o.stats.executed + jobs.len() as u64 * 2 + script_jobs.len() as u64 * 3));
-    rep.cov("distinct_nontrivial", json!(o.stats.past_preparation + bytes_past));
+    rep.cov("distinct_nontrivial", json!(o.stats.past_preparation));
     rep.cov("cases_by_sweep", json!(counts));
     rep.cov("worker_restarts", json!(restarts));
     rep.cov("script_ret_codes", json!(script_codes));
-    rep.cov("rule", json!("(a) every operator of the adversarial catalogue at every position of every harvested situation, re-signed by the attacker and not, executed by the victim; (b) every truncation length and every single-byte substitution {0x00, 0xff, bit 0 flipped, bit 7 flipped} (thorough: every single bit, +-1) of the current data of a few situations, fed to execute_air as current data and to to_human_readable_data; (c) name-clash / scope-edge scripts run on one peer until quiescent with a fixed service, and seq/par/xor/new nested 10..1000 (thorough ..100000) deep, each also parsed and beautified; violation = a panic (reported with its location), a dead worker process (signal / abort / allocation failure under the 4 GiB address-space limit); non-trivial = mutants and byte variants that got past preparation"));
+    rep.cov("rule", json!("(a) every operator of the adversarial catalogue at every position of every harvested situation, re-signed by the attacker and not, executed by the victim; (b) every truncation length and every single-byte substitution {0x00, 0xff, bit 0 flipped, bit 7 flipped} (thorough: every single bit, +-1) of the current data of a few situations, fed to execute_air as current data and to to_human_readable_data; (c) name-clash / scope-edge scripts run on one peer until quiescent with a fixed service, and seq/par/xor/new nested 10..1000 (thorough ..100000) deep, each also parsed and beautified; (how many byte variants still validate or get past preparation varies slightly from run to run, because the byte order of the serialized hash maps does); violation = a panic (reported with its location), a dead worker process (signal / abort / allocation failure under the 4 GiB address-space limit); non-trivial = adversarial-data mutants that got past preparation (the byte variants that did are counted separately under cases_by_sweep)"));
     rep
 }
 
